@@ -328,13 +328,21 @@ class Resume:
                 # one long run: hundreds of generations on a small population, checkpointed every 75 generations
                 # (object graphs that grow with the run length)
                 c["n_gen"] = 460
-                c["pop_size"] = min(c["pop_size"], 8)
+                # enough variables and members for offspring to keep entering during the whole run
+                c["pop_size"] = 12
+                c["n_var"] = 8
+                c["xl"], c["xu"] = np.zeros(8), np.ones(8)
                 if 1 + 2 * (c["y"] + (1 if "-to-" in c["sel"] else 0)) >= c["pop_size"]:
                     c["sel"], c["y"] = "rand", 1
-                    c["pop_size"] = max(c["pop_size"], 5)
                 c["every"] = 75
                 c["history"] = False
                 c["n_off"] = None
+                # a plain problem and plain operators (the long run is about the object graph), serialisers in turn
+                c["special"] = None
+                c["user_ops"] = None
+                c["grid"] = None            # continuous objectives: offspring keep entering for hundreds of generations
+                c["n_eq"] = 0
+                c["method"] = ["deepcopy", "pickle", "dill"][(t // 30 - 1) % 3]
             yield c
 
     @staticmethod
@@ -381,6 +389,19 @@ class Resume:
                 if d is not None:
                     bad.append("resumed from the %s checkpoint after generation %d: generation %d differs (%s)" % (
                         c["method"], k, k + d[0], d[1]))
+            if every > 1:
+                # does the object graph grow with the run length?  (sizes of the pickled algorithm early and late in the run)
+                # If it does, some later checkpoint cannot be taken at all: search for it on a longer run of the same kind.
+                try:
+                    sz = Resume._probe_growth(c, dump)
+                    rec.out["pickle_sizes"] = sz["sizes"]
+                    if sz.get("failed"):
+                        bad.append(sz["failed"])
+                    elif sz.get("grows"):
+                        # the state of the run model (population, optimum, counters) is bounded; the real object's is not
+                        rec.corr_breaks = [sz["grows"]]
+                except Exception as e:
+                    rec.out["pickle_sizes"] = "probe failed: %s" % type(e).__name__
             rec.out["bad"] = bad
             rec.out["points"] = len(saves) - 1
             if c["history"]:
@@ -398,6 +419,40 @@ class Resume:
         if c["history"]:
             rec.tags.add("history")
         return rec
+
+    @staticmethod
+    def _probe_growth(c, dump, extra=4000, step=200):
+        """sizes of pickle.dumps(algorithm) after generations 50 and n_gen of a fresh run; if the later one is clearly larger
+        the run is continued for up to `extra` generations and a checkpoint is attempted every `step` generations: the first
+        one that cannot be taken is a failing input of C18 (never reached on a tree whose object graph does not grow)"""
+        prob, algo = build(c)
+        algo.setup(prob, termination=("n_gen", c["n_gen"] + extra), seed=c["seed"], verbose=False)
+        sizes = {}
+        g = 0
+        while algo.has_next() and g < c["n_gen"]:
+            algo.next()
+            g += 1
+            if g in (50, c["n_gen"]):
+                sizes[g] = len(pickle.dumps(algo))
+        out = {"sizes": sizes}
+        s0, s1 = sizes.get(50), sizes.get(c["n_gen"])
+        if s0 is None or s1 is None or s1 <= 1.25 * s0 + 4096:
+            return out
+        while algo.has_next() and g < c["n_gen"] + extra:
+            algo.next()
+            g += 1
+            if g % step == 0:
+                try:
+                    dump(algo)
+                except Exception as e:
+                    out["failed"] = ("no %s checkpoint can be taken after generation %d: %s (the pickled algorithm grows with the "
+                                     "run: %d bytes after generation 50, %d after generation %d)" % (
+                                         c["method"], g, type(e).__name__, s0, s1, c["n_gen"]))
+                    return out
+        out["grows"] = ("the pickled algorithm object grows with the run length (%d bytes after generation 50, %d after generation %d) "
+                        "although the state of the run model - population, optimum, counters - does not; every %s checkpoint up to "
+                        "generation %d could still be taken" % (s0, s1, c["n_gen"], c["method"], g))
+        return out
 
     @staticmethod
     def encode(rec):
